@@ -36,6 +36,7 @@ import core
 import implrun
 from qlift import qstr, qparse
 from props import adv_common as ac
+from props import adv_grid
 from props.adv_common import PI, U, fr, frl, qs, oarr
 
 CONST_NAMES = ('CN0', 'kN0', 'deltaRN0', 'rp', 'CTi', 'kTi', 'deltaRTi')
@@ -358,6 +359,8 @@ def run():
     chk = core.Check('C11', 'proof')
     proof = core.proof_stage('C11')
     warnings.simplefilter('ignore')
+    # grid-level entry points on distributed layouts (local-index glue, state between entry points)
+    adv_grid.stage(chk, ['vpar'])
     cases = gen_exact_cases(chk)
     res = implrun.run_cases('props.c11', 'exact_case', cases, tmo=300.0)
     ans = ac.model_par([model_line(c) for c in cases])
@@ -445,6 +448,10 @@ def replay(path):
     os.environ['VERIF_SEED'] = str(body.get('seed'))
     os.environ['VERIF_TIER'] = str(body.get('tier'))
     rc = body.get('replay', {}).get('case', {}) if isinstance(body.get('replay'), dict) else {}
+    if isinstance(body.get('replay'), dict) and body['replay'].get('kind') == 'grid-entry':
+        ok, what = adv_grid.replay_case(body['replay']['case'])
+        print('grid-level entry points vs single-process run:', what)
+        return 0 if ok else 1
     if isinstance(rc, dict) and 'k' in rc and 'op' in rc:
         chk = core.Check('C11', 'proof')
         chk.seed, chk.tier = int(body['seed']), body['tier']
